@@ -918,7 +918,7 @@ func Gen(r *vh.Rng, wide bool) Scenario {
 		sc.PStray = 10 + r.Intn(50)
 	}
 	sc.Probes = 2
-	if special > 1 && r.Intn(4) == 0 {
+	if special > 1 && r.Intn(3) == 0 {
 		// pauses longer than the request timeout in the middle of a server write: a few callers, several
 		// queries each, so that requests are sent while a frame is stalled and after its late tail arrived
 		sc.TimeoutMs = 100
@@ -980,7 +980,7 @@ func Main(wide bool) {
 	}
 	r := vh.NewRng(vh.EnvSeed())
 	out := vh.NewOut(path)
-	runs := 40
+	runs := 60
 	if tier == "thorough" {
 		runs = 600
 	}
